@@ -856,4 +856,62 @@ def r1_14(ctx: Ctx, rule: str = "R1.14") -> RuleResult:
     return rr
 
 
-RULES = [r1_1, r1_2, r1_3, r1_4, r1_5, r1_6, r1_7, r1_8, r1_9, r1_10, r1_11, r1_12, r1_13, r1_14]
+#: bracketed selections in the spellings RFC 9535 allows -> the selectors they denote
+BRACKET_SAMPLES = (
+    ("['a']", [("name", "a")]), ('["a"]', [("name", "a")]), ("['']", [("name", "")]), ('[""]', [("name", "")]),
+    ("['a b']", [("name", "a b")]), ("['\u00e9']", [("name", "\u00e9")]), ("['\U0001f600']", [("name", "\U0001f600")]),
+    ("['\\n']", [("name", "\n")]), ("['a\\nb']", [("name", "a\nb")]), ('["a\\tb"]', [("name", "a\tb")]), ("['\\b\\f\\r']", [("name", "\b\f\r")]),
+    ("['\\\\']", [("name", "\\")]), ("['\\'']", [("name", "'")]), ('["\\""]', [("name", '"')]), ("['\"']", [("name", '"')]), ('["\'"]', [("name", "'")]),
+    ("['\\/']", [("name", "/")]), ('["\\u0000"]', [("name", "\x00")]), ("['\\u0041']", [("name", "A")]), ("['\\u00e9']", [("name", "\u00e9")]),
+    ("['\\ud83d\\ude00']", [("name", "\U0001f600")]), ("['a\\\\nb']", [("name", "a\\nb")]), ("['$']", [("name", "$")]), ("['*']", [("name", "*")]),
+    ("['0']", [("name", "0")]), ("['a', 'b']", [("name", "a"), ("name", "b")]), ("[ 'a' , 'a' ]", [("name", "a"), ("name", "a")]),
+    ("['a',\n\t\"b\"]", [("name", "a"), ("name", "b")]),
+    ("[0]", [("index", 0)]), ("[-1]", [("index", -1)]), ("[10]", [("index", 10)]), ("[0, 1, 0]", [("index", 0), ("index", 1), ("index", 0)]),
+    ("[1:3]", [("slice", 1, 3, None)]), ("[::2]", [("slice", None, None, 2)]), ("[::-1]", [("slice", None, None, -1)]), ("[1:]", [("slice", 1, None, None)]),
+    ("[:2]", [("slice", None, 2, None)]), ("[ 1 : 3 : 1 ]", [("slice", 1, 3, 1)]), ("[-2:-1:0]", [("slice", -2, -1, 0)]), ("[:]", [("slice", None, None, None)]),
+    ("[*]", [("wild",)]), ("[ * ]", [("wild",)]), ("[*, 0, 'a', 1:2, *]", [("wild",), ("index", 0), ("name", "a"), ("slice", 1, 2, None), ("wild",)]),
+)
+
+
+def r1_15(ctx: Ctx) -> RuleResult:
+    """Bracketed selections: `Parser.parse_selector_list` is executed abstractly (rules/model.py) on the tokens the
+    lexer model reads from each sample text - every quote style, every escape of RFC 9535 2.3.1.1, indices, slices
+    with any of the three parts missing, wildcards, lists with blank space and duplicates.  The selectors constructed
+    must be the ones the text denotes, in order."""
+    from .model import RAISES
+    from .model import parse_bracketed
+
+    rr = RuleResult("R1.15", "bracketed selections are parsed into the selectors they denote", floor=len(BRACKET_SAMPLES))
+    fn = ctx.repo.require_func("Parser.parse_selector_list")
+
+    def norm(cls: str, kws: Dict[str, object]) -> tuple:  # type: ignore[type-arg]
+        if cls == "PropertySelector":
+            return ("name", kws.get("name", "<missing>")) + (() if kws.get("shorthand") in (False, None) else ("shorthand",))
+        if cls == "IndexSelector":
+            return ("index", kws.get("index", "<missing>"))
+        if cls == "SliceSelector":
+            return ("slice", kws.get("start"), kws.get("stop"), kws.get("step"))
+        if cls == "WildSelector":
+            return ("wild",)
+        return (cls, tuple(sorted((k, repr(v)) for k, v in kws.items())))
+
+    for text, want in BRACKET_SAMPLES:
+        got = parse_bracketed(ctx, "R1.15", text)
+        if got is None:
+            raise AnalysisError(f"R1.15: the abstract execution of parse_selector_list on `{text}` cannot be followed")
+        if got is RAISES:
+            rr.bad(fn, fn.node, f"the selection {text!r}, valid in RFC 9535, is refused by the parser", construct=f"parse of {text!r} raises")
+            continue
+        have = [norm(c, k) for c, k in got]  # type: ignore[union-attr]
+        same = len(have) == len(want) and all(h == tuple(w) and all(type(a) is type(b) for a, b in zip(h, w)) for h, w in zip(have, want))
+        if not same and len(have) == len(want):
+            # a missing step may be handed over as the default 1
+            same = all(h == tuple(w) or (h[0] == "slice" == w[0] and h[:3] == tuple(w[:3]) and w[3] is None and h[3] in (None, 1)) for h, w in zip(have, want))
+        if same:
+            rr.ok(fn.loc(), f"{text!r} -> {have}")
+        else:
+            rr.bad(fn, fn.node, f"the selection {text!r} denotes {[tuple(w) for w in want]} but is parsed into {have}", construct=f"parse of {text!r}")
+    return rr
+
+
+RULES = [r1_1, r1_2, r1_3, r1_4, r1_5, r1_6, r1_7, r1_8, r1_9, r1_10, r1_11, r1_12, r1_13, r1_14, r1_15]
